@@ -312,11 +312,37 @@ func (g *v16Gen) request(ver, cmd, rsv byte, form int, port int) ([]byte, string
 	case 8: // the all-zero address (what UDP ASSOCIATE clients send)
 		b = append(b, 1, 0, 0, 0, 0)
 		return append(b, 0, 0), "", "0.0.0.0:0"
+	case 10: // :: port 0 (IPv6 unspecified)
+		b = append(b, 4)
+		b = append(b, net.IPv6unspecified...)
+		return append(b, 0, 0), "", ""
+	case 11: // ::ffff:0.0.0.0 port 0 (IPv4-mapped unspecified)
+		b = append(b, 4)
+		b = append(b, net.IPv4zero.To16()...)
+		return append(b, 0, 0), "", ""
+	case 12: // ::ffff:127.0.0.1 (IPv4-mapped loopback)
+		b = append(b, 4)
+		b = append(b, net.IPv4(127, 0, 0, 1).To16()...)
+		return append(b, pb...), "", ""
+	case 13: // the unspecified address written as a domain name
+		b = append(b, 3, 7)
+		b = append(b, "0.0.0.0"...)
+		return append(b, 0, 0), "0.0.0.0", ""
+	case 14:
+		b = append(b, 3, 2)
+		b = append(b, "::"...)
+		return append(b, 0, 0), "::", ""
+	case 15: // a name for the client's own address, any port
+		b = append(b, 3, 9)
+		b = append(b, "localhost"...)
+		return append(b, 0, 0), "localhost", ""
 	default:
 		b = append(b, 0xff, 1, 2, 3, 4)
 		return append(b, pb...), "", ""
 	}
 }
+
+const v16Forms = 16
 
 // ---------------------------------------------------------------- the property text, on the script
 
@@ -724,6 +750,7 @@ func (e *v16Engine) session(cfg v16Cfg, h *Socks5Handler, sc v16Script) {
 	// whose request would make the library contact anything but the loopback targets are not run
 	resolved := ""
 	dest := ""
+	var annIP net.IP // the address the request announces (after name resolution)
 	rq := v16ParseReq(sc.b, credsConfigured)
 	if rq.present {
 		if rq.port != e.tgt.port && rq.port != e.gen.closed && rq.port != 0 {
@@ -731,35 +758,51 @@ func (e *v16Engine) session(cfg v16Cfg, h *Socks5Handler, sc v16Script) {
 			return
 		}
 		if rq.atyp == 3 && rq.fqdn != "" {
-			if rq.fqdn != "localhost" && rq.fqdn != "127.0.0.1" && (rq.fqdn != "verif-no-such-host.invalid" || e.slowDNS) {
+			switch rq.fqdn {
+			case "localhost", "127.0.0.1", "0.0.0.0", "::":
+			case "verif-no-such-host.invalid":
+				if e.slowDNS {
+					e.out.Stat("skipped_foreign_destination", sc.name)
+					return
+				}
+			default:
 				e.out.Stat("skipped_foreign_destination", sc.name)
 				return
 			}
 			resolved = e.resolve(rq.fqdn)
 			if resolved != "" {
 				ipb, _ := hex.DecodeString(resolved)
-				dest = net.JoinHostPort(net.IP(ipb).String(), fmt.Sprint(rq.port))
+				annIP = net.IP(ipb)
+				dest = net.JoinHostPort(annIP.String(), fmt.Sprint(rq.port))
 			}
 		} else {
-			if rq.host != "127.0.0.1" && rq.host != "::1" && rq.host != "" && rq.host != "0.0.0.0" {
-				e.out.Stat("skipped_foreign_destination", sc.name)
-				return
+			if rq.host != "" {
+				annIP = net.ParseIP(rq.host)
+				if annIP == nil || !(annIP.IsLoopback() || annIP.IsUnspecified()) {
+					e.out.Stat("skipped_foreign_destination", sc.name)
+					return
+				}
 			}
 			dest = net.JoinHostPort(rq.host, fmt.Sprint(rq.port))
 		}
 	}
 	dialr := 2
-	if dest != "" {
+	if dest != "" && rq.cmd == 1 { // only CONNECT dials
 		dialr = e.probe(dest)
 		if dialr < 0 {
 			e.out.Stat("skipped_unclassified_dial", dest)
 			return
 		}
 	}
-	// UDP relay probes for ASSOCIATE requests that announce a literal loopback / unspecified address
-	udpProbe := rq.present && rq.cmd == 3 && rq.atyp != 3 && (rq.host == "0.0.0.0" || rq.host == "127.0.0.1" || rq.host == "::1") && (rq.port == 0 || rq.port == e.tgt.port || rq.port == e.gen.closed)
+	// UDP relay probes for ASSOCIATE requests that announce a loopback or unspecified address (as an
+	// IPv4, IPv6 or IPv4-mapped literal, or through a name)
+	udpProbe := rq.present && rq.cmd == 3 && annIP != nil && (annIP.IsLoopback() || annIP.IsUnspecified()) && (rq.port == 0 || rq.port == e.tgt.port || rq.port == e.gen.closed)
+	annHost := ""
+	if annIP != nil {
+		annHost = annIP.String()
+	}
 	chunks := v16Chunks(e.r, sc.b)
-	o := v16Run(h, e.tgt, chunks, udpProbe, rq.host, rq.port)
+	o := v16Run(h, e.tgt, chunks, udpProbe, annHost, rq.port)
 	input := map[string]any{"config": cfg.name, "commands": cfg.cmds, "credentials": fmt.Sprint(cfg.creds), "script": sc.name, "bytes": hex.EncodeToString(sc.b)}
 	if o.panicMsg != "" {
 		e.out.Fail("C16:handler:panic", o.panicMsg, input)
@@ -868,7 +911,7 @@ func (e *v16Engine) oracle(cfg v16Cfg, sc v16Script, sp v16Spec, o v16Obs, rep i
 		}
 	}
 	if credsConfigured && o.udpThird {
-		e.out.Fail("C16:auth:udp-relay-accepts-other-source", fmt.Sprintf("UDP ASSOCIATE by the authenticated client at %v with DST 0.0.0.0:0: a datagram sent from %v (no SOCKS session, no authentication) to the relay port was forwarded to its destination (RFC 1928 section 7: MUST drop datagrams from any other source IP)", "127.0.0.1", v16OtherAddr()), input)
+		e.out.Fail("C16:auth:udp-relay-accepts-other-source", fmt.Sprintf("UDP ASSOCIATE by the authenticated client at %v with an unspecified announced address: a datagram sent from %v (no SOCKS session, no authentication) to the relay port was forwarded to its destination (RFC 1928 section 7: MUST drop datagrams from any other source IP)", "127.0.0.1", v16OtherAddr()), input)
 	}
 	if o.dialled && !(sp.reqComplete && sp.cmd == 1 && cfg.connect) {
 		e.out.Fail("C16:command:disabled-command-executed", fmt.Sprintf("the target saw a connection; request command=%d complete=%v; CONNECT enabled=%v", sp.cmd, sp.reqComplete, cfg.connect), input)
@@ -1066,8 +1109,11 @@ func TestVerifC16(t *testing.T) {
 				run(ci, ki, build(cfg, m, 0, hasCreds, 5, cmd, 0, 0, tgt.port, "hello"))
 				count++
 			}
-			run(ci, ki, build(cfg, m, 0, hasCreds, 5, 3, 0, 8, 0, "")) // UDP ASSOCIATE announcing 0.0.0.0:0, as clients usually do
-			count++
+			// UDP ASSOCIATE announcing no address, as clients usually do: 0.0.0.0:0, [::]:0, and as a name
+			for _, form := range []int{8, 10, 13} {
+				run(ci, ki, build(cfg, m, 0, hasCreds, 5, 3, 0, form, 0, ""))
+				count++
+			}
 			if hasCreds {
 				for ak := 1; ak <= 7; ak++ {
 					run(ci, ki, build(cfg, 1, ak, true, 5, 1, 0, 0, tgt.port, "hello"))
@@ -1101,7 +1147,7 @@ func TestVerifC16(t *testing.T) {
 			run(ck[0], ck[1], build(cfg, m, 0, hasCreds, 5, byte(cmd), byte(r.Intn(2)*r.Intn(256)), r.Intn(2), tgt.port, "x"))
 			count++
 		}
-		for form := 0; form <= 9; form++ {
+		for form := 0; form < v16Forms; form++ {
 			if form == 5 && e.slowDNS {
 				continue
 			}
@@ -1150,7 +1196,7 @@ func TestVerifC16(t *testing.T) {
 		if r.Intn(12) == 0 {
 			ver = byte(r.Intn(256))
 		}
-		form := r.Intn(10)
+		form := r.Intn(v16Forms)
 		if form == 5 && e.slowDNS {
 			form = 2
 		}
